@@ -60,6 +60,23 @@ def events(seed, ncfg, nper):
             for i in range(0, 200, 4):
                 ev.append({"kind": "power", "x": bits(x[i]), "u": bits(min(u[i], 1.0)), "p": bits(p), "lo": bits(lo), "hi": bits(hi),
                            "_m": dict(meta0, u=float(u[i]), x=float(x[i]), gen="real")})
+    # one Spectra object reused while the configuration's spectrum is replaced (what the CLI overrides do to a config):
+    # whatever the object samples from, the two factors returned with the sample must still multiply to 1
+    c = make_config({})
+    sp = Spectra(c)
+    for p, lo, hi in cfgs[:8]:
+        for spectrum in (Simulation.PowerSpectrum(index=p, lower_bound=lo, upper_bound=hi), Simulation.MonoSpectrum(log_nu_energy=lo)):
+            c.simulation.spectrum = spectrum
+            try:
+                with rngmod.constant(0.4):
+                    x, norm, wsum = sp(5)
+                n = len(np.atleast_1d(x))
+            except Exception as ex:
+                n, norm, wsum = -1, float("nan"), float("nan")
+            ev.append({"kind": "call", "n": 5, "len": int(n), "norm": bits(norm), "wsum": bits(wsum), "spec": "mono",
+                       "p": bits(p), "lo": bits(lo), "hi": bits(hi),
+                       "_m": {"reused_object": True, "spectrum": type(spectrum).__name__, "index": p, "lo": lo, "hi": hi,
+                              "norm": float(norm), "wsum": float(wsum)}})
     for le in (6.0, 8.0, 9.3, 12.0, float(rng.uniform(6, 12))):
         c = make_config({})
         c.simulation.spectrum = Simulation.MonoSpectrum(log_nu_energy=le)
